@@ -15,6 +15,15 @@ static void print_vec_ij(const PolarGrid& g, const Vector<double>& v) {
     for (int i = 0; i < g.nr(); i++) for (int j = 0; j < g.ntheta(); j++) std::printf(" %s", hx(v[g.index(i, j)]).c_str());
 }
 
+// coefficients multiplied by a power of two: every entry of A scales exactly, so a sweep of (2^e A, 2^e f) must return the same bits
+struct ScaledCoefficients : public DensityProfileCoefficients {
+    const DensityProfileCoefficients& base; int e;
+    ScaledCoefficients(const DensityProfileCoefficients& b, int e_) : base(b), e(e_) {}
+    double alpha(const double& r) const override { return std::ldexp(base.alpha(r), e); }
+    double beta(const double& r) const override { return std::ldexp(base.beta(r), e); }
+    double getAlphaJump() const override { return base.getAlphaJump(); }
+};
+
 int main(int argc, char** argv) {
     std::string mode = argc > 1 ? argv[1] : "smoother";
     const bool ext = mode == "extsmoother";
@@ -98,6 +107,29 @@ int main(int argc, char** argv) {
                 Vector<double> x0(n), f0(n);
                 for (int i = 0; i < n; i++) { x0[i] = rng.nice(-2, 2) * (t ? std::ldexp(1.0, rng.range(-30, 30)) : 1.0); f0[i] = rng.nice(-2, 2); }
                 run_pair("r", t, x0, f0);
+            }
+            // ---- scale invariance (standard smoothers, Dirichlet inner boundary: the across-origin block goes through the sparse LU whose
+            //      absolute pivot threshold is finding F4): the sweep of (2^e A, 2^e f) equals the sweep of (A, f) bit for bit ----
+            if (!ext && dirbc && c % 2 == 0) {
+                for (int e : {300, 520}) {
+                    ScaledCoefficients sc(*pb.coef, e);
+                    LevelCache lcs(g, sc, *pb.geom, true, true);
+                    SmootherGive sgs(g, lcs, *pb.geom, sc, dirbc, threads);
+                    SmootherTake sts(g, lcs, *pb.geom, sc, dirbc, threads);
+                    Vector<double> x0(n), f0(n), fs(n);
+                    for (int i = 0; i < n; i++) { x0[i] = rng.nice(-2, 2); f0[i] = rng.nice(-2, 2); fs[i] = std::ldexp(f0[i], e); }
+                    // Dirichlet rows are identity rows: their right-hand side is the boundary value itself, not scaled
+                    for (int j = 0; j < g.ntheta(); j++) { fs[g.index(0, j)] = f0[g.index(0, j)]; fs[g.index(g.nr() - 1, j)] = f0[g.index(g.nr() - 1, j)]; }
+                    Vector<double> xa = x0, xb = x0, xc = x0, t(n);
+                    S.give(xa, f0);
+                    for (int i = 0; i < n; i++) t[i] = 1.5; sgs.smoothing(xb, fs, t);
+                    for (int i = 0; i < n; i++) t[i] = -1.5; sts.smoothing(xc, fs, t);
+                    bool same = true, fin = true;
+                    for (int i = 0; i < n; i++) { same = same && xa[i] == xb[i]; fin = fin && std::isfinite(xb[i]) && std::isfinite(xc[i]); }
+                    double d = 0; for (int i = 0; i < n; i++) d = std::max(d, std::fabs(xb[i] - xc[i]));
+                    std::printf("PROP sweep-scaling-invariance exponent=%d => %s\n", e,
+                                (same && fin && d <= 1e-9 * std::max(vmaxabs(xb), 1e-300)) ? "ok" : "FAIL the sweep of (2^e A, 2^e f) differs from the sweep of (A, f) or is not finite (scale dependence of the line solves)");
+                }
             }
             // ---- properties evaluated on the implementation ----
             ResidualGive res(g, lc, *pb.geom, *pb.coef, dirbc, 1);
